@@ -348,10 +348,15 @@ def rule_R3(ck):
     # labels
     calls = [c for c in ast.walk(fn) if isinstance(c, ast.Call) and norm_text(c.func) == "self.compile_label"]
     ck.instance("label-call", {"call": norm_text(calls[0]) if calls else None}, fn=where)
-    if not calls or len(calls[0].args) < 2 or norm_text(calls[0].args[1]) != A:
-        ck.violation(where, f"labels are not given the running address {A}", construct="label address")
     lab = repo.func("compiler::Compiler.compile_label")
     lparams = [a.arg for a in lab.args.args]
+    given = None
+    if calls:
+        # the address argument: second positional, or the keyword named like compile_label's second parameter
+        given = calls[0].args[1] if len(calls[0].args) >= 2 else next((k.value for k in calls[0].keywords if len(lparams) > 2 and k.arg == lparams[2]), None)
+    if calls and given is not None and norm_text(given) != A:
+        ck.violation(where, f"labels are not given the running address {A}", construct="label address")
+    # (a call that is spelled some other way is decided by the block law, C02.R3b, which executes compile_block)
     stores = [s for s in ast.walk(lab) if isinstance(s, ast.Assign) and isinstance(s.targets[0], ast.Subscript) and norm_text(s.targets[0].value) == "self.symbols"]
     ck.instance("label-store", {"store": norm_text(stores[0]) if stores else None}, fn="compiler::Compiler.compile_label")
     okl = stores and isinstance(stores[0].value, ast.Tuple) and len(stores[0].value.elts) == 2 and len(lparams) > 2 and norm_text(stores[0].value.elts[1]) == lparams[2]
